@@ -381,9 +381,27 @@ def sp_coo_array(interp, args, kwargs):
                       nrows, ncols, row_major=False, name="coo")
         out = Sparse("coo", nrows, ncols, pattern=None, data=ops.vec_copy(ctx, data, kind="ndarray"))
         out.triplets = (pat.row, pat.col, out.data)
-        out._dense = _unsupported_dense
+        out.find = None
+        # dense view of a triplet list: needs a ghost lookup function `find` installed by the contract together with the proof
+        # that the stored positions are pairwise distinct (find(row t, col t) = t for every t): then the sum over equal
+        # positions has at most one term and  M(a,b) = data[find(a,b)] if that entry sits at (a,b), else 0
+        out._dense = lambda c, i, j, me=out: _triplet_dense(me, c, i, j)
+        ctx.__dict__.setdefault("triplet_matrices", []).append(out)
         return out
     raise Unsupported("coo_array constructor form")
+
+
+def _triplet_dense(M, ctx, i, j):
+    if M.find is None:
+        raise Unsupported("dense view of a coo matrix built from general triplets (no lookup ghost installed)")
+    row, col, data = M.triplets
+    L = zint(data.length)
+    t = M.find(zint(i), zint(j))
+    rt = to_num(vget(ctx, row, t)).z
+    ct = to_num(vget(ctx, col, t)).z
+    v = to_num(vget(ctx, data, t))
+    hit = z3.And(t >= 0, t < L, rt == zint(i), ct == zint(j))
+    return Num(z3.If(hit, as_real(v if not isinstance(v, Bool) else ops.num_of_bool(v)), z3.RealVal(0)), False)
 
 
 def _unsupported_dense(ctx, i, j):
